@@ -99,10 +99,10 @@ impl Bits {
                 Op::Noise { word, via } => (word_bits(word & 0x7FF).to_vec(), via, None, WFault::None),
                 Op::Edge { bit } => (vec![bit], Via::Bit, None, WFault::None),
                 Op::Clear => {
-                    busy.clear();
+                    let _ = busy.clear();
                     busy_bits = 0;
                     kb.clear();
-                    stream.clear();
+                    let _ = stream.clear();
                     aligned = true;
                     env.cov.api_calls += 3;
                     if i > 0 {
@@ -178,7 +178,7 @@ impl Bits {
                 // not a frame: the bits end up as junk in the long-lived decoder
                 for b in &bits {
                     if busy_bits % 11 == 10 {
-                        busy.clear(); // keep it strictly partial
+                        let _ = busy.clear(); // keep it strictly partial
                         busy_bits = 0;
                     }
                     let _ = busy.add_bit(*b);
@@ -377,7 +377,7 @@ impl Bits {
                     } else if !cleared_since_fault {
                         env.cov.probe("watchdog_clear_after_fault");
                     }
-                    real.clear();
+                    let _ = real.clear();
                     model.clear();
                     env.cov.api_calls += 1;
                     aligned = true;
